@@ -143,6 +143,13 @@ Section RingPart.
     np_dot 3 a (np_cross_3 b c) = np_det_3 (fun i j => match i with 0%nat => a j | 1%nat => b j | _ => c j end).
   Proof. cbv [np_dot np_cross_3 np_det_3 es_i_i fsum]. ring. Qed.
 
+  (* ---- jump(w, u, v): argument i is multiplied by (-1)^(w.idx[i]); without w.idx the arguments are returned *)
+  Lemma jump_def (u v : R) :
+    (np_jump_none_0 u v = u /\ np_jump_none_1 u v = v) /\ (np_jump_01_0 u v = u /\ np_jump_01_1 u v = - v) /\
+    (np_jump_10_0 u v = - u /\ np_jump_10_1 u v = v) /\ np_jump_0_0 u v = u /\ np_jump_1_0 u v = - u.
+  Proof. cbv [np_jump_none_0 np_jump_none_1 np_jump_01_0 np_jump_01_1 np_jump_10_0 np_jump_10_1 np_jump_0_0 np_jump_1_0].
+         repeat split; ring. Qed.
+
   (* ---- NumPy and JAX variants: the 2x2 determinant as terms (3x3 is in C20_JaxDet.v) *)
   Lemma det2_variants_agree (A : mat) : np_det_2 A = jx_det_2 A.
   Proof. reflexivity. Qed.
